@@ -92,6 +92,65 @@ def gen_section(r, tok, kind=None, paths=None, **kw):
             c3 = sum(1 for k, _ in body if "-" not in k)
             hunks.append({"header": f"@@@ -{o1},{c1} -{o2},{c2} +{n_},{c3} @@@" + frag, "old_start": o1, "new_start": n_, "frag": frag,
                           "body": body, "no_newline": False, "cc": True})
+    if kind == "ccconf":
+        # combined diff of a conflicted merge: hunks whose bodies hold ordinary two-column lines and
+        # conflict regions (`++<<<<<<<` ... [`++|||||||` ...] `++=======` ... `++>>>>>>>`)
+        hunks = []
+        for _ in range(r.randint(1, 2)):
+            body, items = [], []
+
+            def add(pre, text):
+                body.append((pre, text))
+                return len(body) - 1
+            for _ in range(r.randint(1, 3)):
+                for _ in range(r.randint(0, 2)):
+                    items.append(("line", add(r.choice(["  ", "  ", "- ", " -", "++", "+ ", " +"]), gline(r, tok))))
+                reg = {"begin": add("++", "<<<<<<< " + r.choice(["HEAD", "Updated upstream", "ours"]))}
+                reg["ours"] = [add(r.choice([" +", "++"]), gline(r, tok)) for _ in range(r.randint(0, 3))]
+                if reg["ours"] and r.random() < 0.15:
+                    # a begin marker inside the ours section is an ordinary line of that section
+                    reg["ours"].append(add("++", "<<<<<<< nested " + tok.next()))
+                if r.random() < 0.6:
+                    reg["ancmark"] = add("++", "||||||| " + r.choice(["merged common ancestors", "base", "1234abc"]))
+                    reg["anc"] = [add("++", gline(r, tok)) for _ in range(r.randint(0, 3))]
+                else:
+                    reg["ancmark"], reg["anc"] = None, []
+                reg["sep"] = add("++", "=======")
+                reg["theirs"] = [add(r.choice(["+ ", "++"]), gline(r, tok)) for _ in range(r.randint(0, 3))]
+                reg["end"] = add("++", ">>>>>>> " + r.choice(["topic", "Stashed changes", "theirs"]))
+                items.append(("region", reg))
+            for _ in range(r.randint(0, 2)):
+                items.append(("line", add(r.choice(["  ", "  ", "+ ", " +"]), gline(r, tok))))
+            o1, o2, n_ = r.randint(1, 900), r.randint(1, 900), r.randint(1, 900)
+            c1 = sum(1 for k, _ in body if k[0] in " -")
+            c2 = sum(1 for k, _ in body if k[1] in " -")
+            c3 = sum(1 for k, _ in body if "-" not in k)
+            hunks.append({"header": f"@@@ -{o1},{c1} -{o2},{c2} +{n_},{c3} @@@", "old_start": o1, "new_start": n_, "frag": "",
+                          "body": body, "items": items, "no_newline": False, "cc": True})
+    if kind in ("sub", "subadd", "subdel"):
+        # a submodule pointer change (diff.submodule = short): `[-+]Subproject commit <sha>[-dirty]`
+        sha1, sha2 = "%040x" % r.getrandbits(160), "%040x" % r.getrandbits(160)
+        dirty = "-dirty" if r.random() < 0.3 else ""
+        if kind == "sub":
+            body, hdr = [("-", "Subproject commit " + sha1), ("+", "Subproject commit " + sha2 + dirty)], "@@ -1 +1 @@"
+        elif kind == "subadd":
+            body, hdr = [("+", "Subproject commit " + sha2 + dirty)], "@@ -0,0 +1 @@"
+        else:
+            body, hdr = [("-", "Subproject commit " + sha1)], "@@ -1 +0,0 @@"
+        hunks = [{"header": hdr, "old_start": 1, "new_start": 1, "frag": "", "body": body, "no_newline": False}]
+    if kind == "subnear":
+        # an ordinary file whose lines merely look like submodule lines
+        hunks = [gen_hunk(r, tok, **kw) for _ in range(r.randint(1, 2))]
+        for h in hunks:
+            body = list(h["body"])
+            k0, t0 = body[0]
+            if k0 in "-+":
+                body[0] = (k0, "Subproject commit " + r.choice(["is a thing ", "1234abc ", "", "%040x extra " % r.getrandbits(160)]) + tok.next())
+            if len(body) > 1:
+                j = r.randrange(1, len(body))
+                if body[j][0] in "-+":
+                    body[j] = (body[j][0], "Subproject commit " + "%040x" % r.getrandbits(160))
+            h["body"] = body
     if kind == "diffu":
         # plain `diff -u` output: no `diff --git` line; removed / added lines may themselves begin with
         # "-- " / "++ " (SQL, Lua, Haskell comments), which makes them look like file header lines
@@ -117,7 +176,7 @@ def gen_section(r, tok, kind=None, paths=None, **kw):
                     h["header"] = f"@@ -1,{n_} +0,0 @@" + h["frag"]
                     h["old_start"], h["new_start"] = 1, 0
             hunks = hunks[:1]
-    return make_section(kind, p, q, hunks)
+    return make_section("mod" if kind == "subnear" else kind, p, q, hunks)
 
 
 def make_section(kind, p, q, hunks):
@@ -156,7 +215,15 @@ def make_section(kind, p, q, hunks):
     elif kind == "empty":
         head = [f"diff --git a/{p} b/{p}", "new file mode 100644", "index 0000000..e69de29"]
         old = "/dev/null"
-    elif kind == "cc":
+    elif kind == "sub":
+        head = [f"diff --git a/{p} b/{p}", "index 1111111..2222222 160000", f"--- a/{p}", f"+++ b/{p}"]
+    elif kind == "subadd":
+        head = [f"diff --git a/{p} b/{p}", "new file mode 160000", "index 0000000..2222222", "--- /dev/null", f"+++ b/{p}"]
+        old = "/dev/null"
+    elif kind == "subdel":
+        head = [f"diff --git a/{p} b/{p}", "deleted file mode 160000", "index 1111111..0000000", f"--- a/{p}", "+++ /dev/null"]
+        new = "/dev/null"
+    elif kind in ("cc", "ccconf"):
         head = [f"diff --cc {p}", "index 1111111,2222222..3333333", f"--- a/{p}", f"+++ b/{p}"]
     elif kind == "diffu":
         head = [f"--- a/{p}\t2020-01-01 00:00:00.000000000 +0000", f"+++ b/{p}\t2020-01-02 00:00:00.000000000 +0000"]
@@ -182,8 +249,8 @@ def gen_log_wrapper(r):
     return out
 
 
-def gen_diff(r, nsec=None, log=None, **kw):
-    tok = Tok()
+def gen_diff(r, nsec=None, log=None, tok=None, **kw):
+    tok = tok or Tok()
     secs = [gen_section(r, tok, **kw) for _ in range(nsec or r.randint(1, 4))]
     pre = gen_log_wrapper(r) if (log if log is not None else r.random() < 0.4) else []
     return {"pre": pre, "sections": secs}
